@@ -132,7 +132,7 @@ func TestC16Prog(t *testing.T) {
 	h := run.Start(t, "C16")
 	defer h.Finish()
 	h.SetRule(ruleProg)
-	maxSteps := h.Scale(14, 30)
+	maxSteps := h.Scale(20, 40)
 	ex := newExclusions(h)
 	exclTotal := map[string]int{}
 	defer func() {
@@ -148,7 +148,7 @@ func TestC16Prog(t *testing.T) {
 	rapid.Check(t, func(rt *rapid.T) {
 		ch := &rapidChooser{t: rt}
 		pc := &ProgCase{Accts: progAccts(ch, ex)}
-		n := rapid.IntRange(2, maxSteps).Draw(rt, "nsteps")
+		n := 3 + ch.Int(0, maxSteps-3, "nsteps")
 		c := &Case{Prog: pc}
 		v, r, excl := runProg(pc, n, ch, false, ex, func() { h.Journal(c) })
 		for k, x := range excl {
